@@ -227,6 +227,9 @@ func genHistory() []hop {
 			ops[i] = hop{kind: "exists", arg: genName()}
 		case r < 17:
 			ops[i] = hop{kind: "addimport", ps: paths[rng.Intn(len(paths))]}
+			if rng.Intn(4) == 0 {
+				ops[i].arg = []string{"other", "model", "gocodec", "http"}[rng.Intn(4)]
+			}
 		case r < 18:
 			ops[i] = hop{kind: "imports"}
 		case r < 19:
@@ -378,7 +381,11 @@ func (w *world) run(first methodSpec, methods []methodSpec, ops []hop, skipSugge
 			w.feed(Event{Scope: id, Op: "exists", Arg: op.arg, Bool: b})
 			w.results = append(w.results, fmt.Sprint(b))
 		case "addimport":
-			p := w.reg.AddImport(op.ps.name, op.ps.path)
+			nm := op.ps.name
+			if len(op.arg) > 0 { // the same path offered under another package name: the qualifier already handed out must be returned
+				nm = op.arg
+			}
+			p := w.reg.AddImport(nm, op.ps.path)
 			self := w.inPkg && op.ps.path == w.dst
 			q := p.Qualifier()
 			w.feed(Event{File: w.fileID, Op: "addimport", Arg: op.ps.name, Path: op.ps.path, Res: q, Self: self})
